@@ -321,18 +321,51 @@ def tseitin_charges(case):
     return list(ch)
 
 
+_REUSED = {}
+
+
 def build(case):
     import cnfgen
     fc = formula_class(case)
     fam = case['fam']
     src = case.get('src', 'cnfgen')
+    if src == 'reused' and 'G' not in _REUSED:
+        # The graph object was already used: the same generator was run on it
+        # when it differed by one edge, then the object was edited through
+        # its public interface into the graph of this case.  What is built
+        # now must be the formula of the graph as it is now.
+        edges = [tuple(e) for e in E(case)]
+        n = case['n']
+        if edges:
+            first, op = edges[:-1], ('add', edges[-1])
+        elif n >= 2:
+            first, op = [(1, n)], ('remove', (n, 1))     # larger endpoint first
+        else:
+            first, op = [], None
+        G0 = mk_input_graph(n, first, 'cnfgen')
+        _REUSED['G'] = G0
+        try:
+            try:
+                build(case)
+            except Exception:      # noqa: the first formula is only a past
+                pass
+            if op is not None:
+                if op[0] == 'add':
+                    G0.add_edge(op[1][1], op[1][0])
+                else:
+                    G0.remove_edge(*op[1])
+            return build(case)
+        finally:
+            _REUSED.clear()
+    if 'G' in _REUSED:
+        src = 'cnfgen'
     if fam in ('iso',):
-        G1 = mk_input_graph(case['n'], E(case), src)
+        G1 = _REUSED['G'] if 'G' in _REUSED else mk_input_graph(case['n'], E(case), src)
         G2 = mk_input_graph(case['n2'], E(case, 'E2'), src)
         if 'nontrivial' in case:
             return cnfgen.GraphIsomorphism(G1, G2, nontrivial=case['nontrivial'], formula_class=fc)
         return cnfgen.GraphIsomorphism(G1, G2, formula_class=fc)
-    G = mk_input_graph(case['n'], E(case), src)
+    G = _REUSED['G'] if 'G' in _REUSED else mk_input_graph(case['n'], E(case), src)
     if fam == 'tseitin':
         ch = tseitin_charges(case)
         if ch is None:
@@ -1060,7 +1093,7 @@ def cases(tier, seed):
     # ---- variants: OPB class / networkx input / reversed insertion ------
     vn = 4 if thorough else 3
     variants = [{'cls': 'OPB'}, {'src': 'nx'}, {'src': 'rev'}, {'cls': 'OPB', 'src': 'nx'},
-                {'src': 'grown'}]
+                {'src': 'grown'}, {'src': 'reused'}]
     small = list(scope.simple_graphs_upto(3))
     for var in variants:
         for n, es in scope.simple_graphs_upto(4 if var == {'cls': 'OPB'} else vn):
